@@ -132,12 +132,16 @@ def textLoop : Bytes → Option Bytes
   | [] => some []
   | c :: rest =>
     if isLegal c then (textLoop rest).map (c :: ·)
-    else match c, rest with
-      | 37, a :: b :: rest' =>
+    else if c = 37 then
+      -- '%' followed by at least two characters: two hex digits or an error;
+      -- '%' with fewer than two characters left is a special character: error
+      match rest with
+      | a :: b :: rest' =>
         match hexDig a, hexDig b with
         | some x, some y => (textLoop rest').map ((x * 16 + y) :: ·)
         | _, _ => none
-      | c, rest => if isSpecial c then none else (textLoop rest).map (c :: ·)
+      | _ => none
+    else if isSpecial c then none else (textLoop rest).map (c :: ·)
 
 /-- `compValFmtText.FromString` -/
 def textFromStr (s : Bytes) : Option Bytes :=
@@ -157,7 +161,8 @@ def parseDec (s : Bytes) : Option Nat :=
     if v < 2 ^ 64 then some v else none
 
 /-- `compValFmtDec.ToString`: big-endian value reduced mod 2^64 (uint64 shifts) -/
-def decToStr (v : Bytes) : Bytes := decStr (v.foldl (fun acc b => (acc * 256 + b) % 2 ^ 64) 0)
+def decVal (v : Bytes) : Nat := v.foldl (fun acc b => (acc * 256 + b) % 2 ^ 64) 0
+def decToStr (v : Bytes) : Bytes := decStr (decVal v)
 /-- `compValFmtDec.FromString` -/
 def decFromStr (s : Bytes) : Option Bytes := (parseDec s).map encNat
 
@@ -213,26 +218,38 @@ def nameToStr (n : Name) : Bytes :=
 inductive Res (α : Type) | ok (a : α) | err | panic
 deriving Repr, DecidableEq
 
-/-- `parseCompTypeFromStr` (after fix F-14a: the empty string is an error, not `s[0]`) -/
-def parseCompType (s : Bytes) : Res (Nat × VFmt) :=
-  match s with
-  | [] => .err
-  | c :: _ =>
-    if isAlpha c then
-      match convByName s with
-      | some (t, f) => .ok (t, f)
-      | none => .err
-    else match parseDec s with
-      | some t => .ok (t, .text)
-      | none => .err
+/-- Go indexing `s[i]`: panics when out of range -/
+def goIndex (s : Bytes) (i : Nat) : Res Nat :=
+  match s[i]? with
+  | some c => .ok c
+  | none => .panic
 
-/-- split at the first '=' ; `none` when there are two or more -/
+/-- `parseCompTypeFromStr` (after fix F-14a: the length is tested before `s[0]` is read) -/
+def parseCompType (s : Bytes) : Res (Nat × VFmt) :=
+  if s.length = 0 then .err
+  else match goIndex s 0 with
+    | .panic => .panic
+    | .err => .err
+    | .ok c =>
+      if isAlpha c then
+        match convByName s with
+        | some (t, f) => .ok (t, f)
+        | none => .err
+      else match parseDec s with
+        | some t => .ok (t, .text)
+        | none => .err
+
+/-- cut at the first '=' (`none` when there is none) -/
+def cutEq : Bytes → Option (Bytes × Bytes)
+  | [] => none
+  | c :: rest => if c = 61 then some ([], rest) else (cutEq rest).map fun p => (c :: p.1, p.2)
+
+/-- the '=' scan of `componentFromStrInto`: `none` when there are two or more '=' (error),
+    `some (none, s)` when there is none, `some (some typ, val)` otherwise -/
 def splitEq (s : Bytes) : Option (Option Bytes × Bytes) :=
-  match s.idxOf 61 with
-  | i => if i = s.length then some (none, s)
-         else
-           let v := s.drop (i + 1)
-           if v.contains 61 then none else some (some (s.take i), v)
+  match cutEq s with
+  | none => some (none, s)
+  | some (ts, v) => if v.contains 61 then none else some (some ts, v)
 
 /-- `componentFromStrInto` -/
 def compFromStr (s : Bytes) : Res Component :=
@@ -253,11 +270,13 @@ def compFromStr (s : Bytes) : Res Component :=
         | none => .err
 
 /-- `strings.Split(s, "/")` -/
-def splitSlash (s : Bytes) : List Bytes :=
-  s.foldr (fun c acc => if c = 47 then [] :: acc else
-    match acc with
-    | [] => [[c]]
-    | h :: t => (c :: h) :: t) [[]]
+def splitSlash : Bytes → List Bytes
+  | [] => [[]]
+  | c :: t =>
+    if c = 47 then [] :: splitSlash t
+    else match splitSlash t with
+      | h :: tl => (c :: h) :: tl
+      | [] => [[c]]
 
 def mapRes {α β} (f : α → Res β) : List α → Res (List β)
   | [] => .ok []
